@@ -209,6 +209,28 @@ def param_role_programs():
   return out
 
 
+# A nested function declares a module global whose name the enclosing function uses for a
+# LOCAL (and the converter's vocabulary likes, too): the local must stay a local.
+def nested_global_programs():
+  out = []
+  for nm in ['do_return', 'retval_', 'fscope', 'counter']:
+    src = '''def f(x, n, b, xs):
+  %(N)s = 0
+  def bump():
+    global %(N)s
+    %(N)s = %(N)s + 100
+    return %(N)s
+  for i in range(n):
+    %(N)s = %(N)s + i
+    if i > x:
+      %(N)s = %(N)s + 1
+  r = bump() if b else -1
+  return (%(N)s, r)
+''' % {'N': nm}
+    out.append(gen.Prog('ngl:%s' % nm, src, {'nested_global'}, {nm: 5}))
+  return out
+
+
 # A user variable named like the injected operator module. Listed known finding: re-observed
 # on every run through this witness.
 WITNESS = [
@@ -325,7 +347,7 @@ def run(tier):
   base += [gen.Prog(n, s, {'extra'}, C01.EXTRA_GLOBS.get(n)) for n, s in C01.EXTRA if 'global' not in n]
   from vf import exotic
   base += [p for p in exotic.programs() if 'global' not in p.name]
-  progs = [adversarial(p, rnd) for p in base] + closure_programs() + param_role_programs()
+  progs = [adversarial(p, rnd) for p in base] + closure_programs() + param_role_programs() + nested_global_programs()
   progs += [gen.Prog(n, src, {'witness'}) for n, src in WITNESS]
   bounds = {'n': 3, 'len': 2}
   pct, ppt = (15.0, 4.0) if tier == 'quick' else (60.0, 10.0)
